@@ -368,13 +368,15 @@ def all_patterns_found_rule(ctx, eng: str, rule: str) -> None:
     cfg = cfgs.get(fq)
     pc = PathCond(cfg)
     complete = None
+    found_sets: T.Set[str] = set()
     for a in pc.atoms:
         tree = ast.parse(a, mode="eval").body
         names = {x.id for x in ast.walk(tree) if isinstance(x, ast.Name)}
-        if isinstance(tree, ast.Compare) and isinstance(tree.ops[0], ast.Eq) and p_patterns in names and len(names) >= 2:
+        if isinstance(tree, ast.Compare) and isinstance(tree.ops[0], (ast.Eq, ast.LtE, ast.GtE)) and p_patterns in names and len(names) >= 2:
             other = (names - {p_patterns, "set", "frozenset", "len"})
             if other:
                 complete = BF.var(a) if complete is None else complete | BF.var(a)
+                found_sets |= other
         elif isinstance(tree, ast.Name):
             d = shapes.single_def(fn, tree.id)
             if d is not None and isinstance(d, ast.BinOp) and isinstance(d.op, ast.Sub) and p_patterns in {x.id for x in ast.walk(d.left) if isinstance(x, ast.Name)}:
@@ -385,6 +387,13 @@ def all_patterns_found_rule(ctx, eng: str, rule: str) -> None:
               f"{fq}: normal return implies every pattern was found  [exit iff {ex.to_dnf()}]",
               f"{fq}: returns normally although a pattern was not found",
               f"normal return is reachable when {(ex & ~complete).to_dnf()}", loc=fn.loc(), witness=(ex & ~complete).models(1))
+    # the found set belongs to this call: patterns found in another file must not count here
+    for fs in sorted(found_sets):
+        shared = fs in fn.all_params or any(isinstance(v, ast.Name) and v.id in fn.all_params for _st, v in shapes.local_defs(fn, fs) if v is not None)
+        ctx.check(rule, not shared, f"{fq}: the found-patterns set `{fs}` is local to the call",
+                  f"{fq}: the found-patterns set can be shared between files",
+                  f"`{fs}` is (or aliases) a parameter: a pattern that matched in an earlier file counts as found in a later file where it does not match, "
+                  f"so that file's fault is not reported and the other files are rewritten", loc=fn.loc(), witness={"files": "two files configured with the same pattern, the second one stale"})
     # found set is filled from the matches actually applied
     adds = [c for c in ast.walk(fn.node) if isinstance(c, ast.Call) and isinstance(c.func, ast.Attribute) and c.func.attr == "add"
             and c.args and unparse(c.args[0]).endswith(".pattern")]
